@@ -7,7 +7,7 @@ use dashu_base::{
 use dashu_int::IBig;
 
 use crate::{
-    error::{assert_finite, assert_limited_precision},
+    error::{assert_finite, assert_limited_precision, panic_log_non_positive},
     fbig::FBig,
     repr::{Context, Repr, Word},
     round::{Round, Rounded, Rounding},
@@ -230,6 +230,16 @@ impl<R: Round> Context<R> {
 
         if (one_plus && x.is_zero()) || (!one_plus && x.is_one()) {
             return Exact(FBig::ZERO);
+        }
+
+        // the argument of the logarithm must be positive
+        let positive = if one_plus {
+            x.sign() == Sign::Positive || *x > Repr::neg_one()
+        } else {
+            x.sign() == Sign::Positive && !x.is_zero()
+        };
+        if !positive {
+            panic_log_non_positive()
         }
 
         // A simple algorithm:
